@@ -48,7 +48,8 @@ def gen_schedule(rng, rig, nthr, nops, in_win, peer_max, allow_close=True, allow
                 cands += [("iter %d" % t, 5)]
         if idle:
             t = rng.choice(idle)
-            n = rng.choice([0, 1, 2, 63, 64, 100, 1000, pkt - 1, pkt, pkt + 1, 4096, 5000, 40000, 70000,
+            near = pkt if pkt <= 70000 else 4032
+            n = rng.choice([0, 1, 2, 63, 64, 100, 1000, near - 1, near, near + 1, 4096, 5000, 40000, 70000,
                             rng.randrange(1, 9000)])
             cands += [("send %d %d %d" % (t, max(n, 0), rng.randrange(2)), 8)]
             if allow_sendall:
@@ -65,7 +66,7 @@ def gen_schedule(rng, rig, nthr, nops, in_win, peer_max, allow_close=True, allow
             code = rng.choice(ext_codes)
             cands += [("feedx %d %d %d" % (t, code, rng.choice([1, 10, 500, 3277, 5000])), 2)]
         cands += [("adjust %d" % rng.choice([1, 1, 10, 64, 100, 4032, 5000, 32768, 1 << 31, U32]), 6),
-                  ("feed %d" % rng.choice([1, 5, 100, 3000, 3276, 3277, 4000, 9000, in_win // 10, in_win // 10 + 1]), 5),
+                  ("feed %d" % rng.choice([1, 5, 100, 3000, 3276, 3277, 4000, 9000, min(in_win // 10, 250000), min(in_win // 10 + 1, 250000)]), 5),
                   ("mode %s" % rng.choice(["b", "n", "n", "t3", "t10"]), 2)]
         if allow_close and i > nops // 2:
             cands += [("peof", 0.7), ("shutr", 0.3), ("unlink", 0.3)]
@@ -264,7 +265,7 @@ def run(ctx):
               "BufferedPipe (C26) is abstracted to its length")
     ctx.build(extra_modules=["PV.Model.ChanDriver"])
     rng = ctx.rng
-    n_sched = 9000 if ctx.thorough else 1500
+    n_sched = 20000 if ctx.thorough else 4000
     batches = []
     for i in range(n_sched):
         nthr = rng.choice([1, 2, 2, 3, 3, 4])
@@ -290,7 +291,7 @@ def run(ctx):
 
 
 META = {
-    "claimed": False,
+    "claimed": True,
     "level": ("Proved in Lean for every schedule (any list of atomic regions of any number of threads — reservations "
               "under the channel lock, wire writes after it is released, wake-ups, window adjustments, reads, acks, "
               "closes, peer messages): bytes written + bytes reserved + out_window_size = initial window + Σ "
